@@ -115,6 +115,12 @@ fn same_number(src: &str, got: &str, float_ref: &dyn Fn(&str) -> Option<f64>) ->
         }
         return NumCmp::Same;
     }
+    if let Some(b) = as_int(got) {
+        // a float spelling that comes back in integer syntax now denotes that integer exactly:
+        // it has to be the very number the source denotes (2^63 is not 2^63 - 1)
+        let exact = want.fract() == 0.0 && want.abs() < 1.0e38 && (want as i128) == b;
+        return if exact { NumCmp::Same } else { NumCmp::Differs(format!("{src} (= {want:e}) became the integer {got}")) };
+    }
     if have == want {
         NumCmp::Same
     } else if sig_digits(src) > 19 && ulp_distance(have, want) <= 1 {
@@ -420,6 +426,24 @@ pub fn boundary_numbers() -> Vec<String> {
         "4.9e-324",
         "100e90",
         "9.999999999999999e91",
+        // integral doubles at the edges of the integer types, in float spellings
+        "9223372036854775808.0",
+        "9.223372036854775808e18",
+        "-9223372036854775808.0",
+        "-9223372036854775809.0",
+        "9223372036854775807.0",
+        "18446744073709551616.0",
+        "18446744073709551615.0",
+        "1.8446744073709552e19",
+        "9007199254740992.0",
+        "9007199254740993.0",
+        "4294967296.0",
+        "2147483648.0",
+        "-2147483649.0",
+        "1e10",
+        "1.0",
+        "-1.0",
+        "0.0",
     ]
     .iter()
     .map(|s| s.to_string())
